@@ -116,6 +116,8 @@ func CodeName(c int) string {
 	switch c {
 	case OK:
 		return "ok"
+	case 6:
+		return "ENXIO"
 	case EPERM:
 		return "EPERM"
 	case ENOENT:
